@@ -182,6 +182,8 @@ structure Dom (S : Schema) (x : DNode) : Prop where
 plugins, key by key) is a strict total order on the instances of one such schema node, and instances with equal keys / values
 (`sameInst`) are indistinguishable for it. -/
 structure KeyOrder (S : Schema) : Prop where
+  /-- list keys are leaves (schema well-formedness) -/
+  keyTerm : ∀ {sid}, S.isKey sid = true → S.isTerm sid = true
   asymm : ∀ {x y}, Dom S x → Dom S y → x.sid = y.sid → S.isSorted x.sid = true → cmpInst S x y = .lt → cmpInst S y x ≠ .lt
   trans : ∀ {x y z}, Dom S x → Dom S y → Dom S z → x.sid = y.sid → y.sid = z.sid → S.isSorted x.sid = true →
     cmpInst S x y = .lt → cmpInst S y z = .lt → cmpInst S x z = .lt
